@@ -92,6 +92,7 @@ def step (st : St) (pre post : List String) : St × Verdict :=
         if post = [toString m.lastCommitID.version, renderHash m.lastCommitID.hash] then .ok else .diff s!"open: model={m.lastCommitID.version} impl={post}")
   | ["commit", _] =>
     match post, st.model with
+    | "PANIC" :: msg, _ => (st, pf st "commit-panics" s!"{msg}")
     | ver :: hash :: evs, some m =>
       match parseCID ver hash, (if evs = ["-"] then some [] else evs.mapM parseEvent) with
       | some cid, some batches =>
